@@ -12,7 +12,7 @@ HOSTS = ["a.com", "a.notatld", "localhost", "1.2.3.4", "999.1.1.1", "a_b.com", "
          "télérama.fr", "a.com.", "localhost.foo", "a", "[::1]", "A.COM", "a..com", "a.xn--p1ai", "a.рф", "localhostx.com",
          "a.b.notatld", "1.2.3.4.com", ""]
 PORTS = ["", ":8", ":80", ":8080", ":65535", ":123456"]
-TAILS = ["", "/", "/a", "/a b", "/a\tb", "?q", "#f", "/a\nb", "/é"]
+TAILS = ["", "/", "/a", "/a b", "/a\tb", "?q", "#f", "/a\nb", "/é", "/a\x7fb", "?q=\x1fx", "#f\x85"]
 WRAPS = ["", "trail-space", "lead-nl", "text-after", "nl-text-after"]
 OPTS = [("require_protocol", [True, False]), ("tld_aware", [False, True]), ("allow_spaces_in_path", [False, True]),
         ("only_http_https", [True, False])]
